@@ -41,3 +41,26 @@ pub fn line(l: &str) -> String {
         Err(_p) => "err panic".to_string(),
     }
 }
+
+/// Stream `ratfmt`: `<style> <base> <prefix 0|1> <comma 0|1> <raw rat>` through `BigRat::format` (term = "").
+pub fn fmt_line(l: &str) -> String {
+    let ws: Vec<&str> = l.trim().split(' ').collect();
+    let int = Counting::never();
+    let res = guarded(|| -> Result<String, String> {
+        match ws.as_slice() {
+            [style, base, pfx, comma, a] => {
+                let a = parse_rat(a).ok_or("bad-op")?;
+                let base: u8 = base.parse().map_err(|_| "bad-op")?;
+                h::bigrat_format(&a, style, base, *pfx == "1", "", false, *comma == "1", &int)
+                    .map(|(t, e)| format!("{} {}", t, if e { "exact" } else { "approx" }))
+            }
+            _ => Err("bad-op".to_string()),
+        }
+    });
+    match res {
+        Ok(Ok(s)) => format!("ok {s}"),
+        Ok(Err(e)) if e == "bad-op" => "bad-op".to_string(),
+        Ok(Err(e)) => format!("err {}", classify(&e)),
+        Err(_p) => "err panic".to_string(),
+    }
+}
